@@ -1,9 +1,11 @@
 SPECIFICATION Spec
-CONSTANTS S1 = 7 S2 = 0 S3 = 0  MaxV = 3  Start = "P"  Strict = FALSE  Cross = FALSE  Close = FALSE  LabelBoundary = FALSE
+CONSTANTS S1 = 7 S2 = 0 S3 = 0  MaxV = 3  Start = "P"  Strict = FALSE  Cross = FALSE  Close = FALSE  LabelBoundary = FALSE  RankByArray = FALSE  Coarse = 1
 CHECK_DEADLOCK FALSE
 INVARIANT Content
 INVARIANT Tight
 INVARIANT Densest
+INVARIANT DensityOrder
+INVARIANT FmByDensity
 INVARIANT Threshold
 INVARIANT Sandwich
 INVARIANT WarnIff
